@@ -337,10 +337,10 @@ Qed.
 
 (* ------------------------------------------------------------------ assembly *)
 Lemma op_ok_tgt tgt op : op_ok tgt op = true ->
-  tgt = 0 \/ tgt = 1 \/ tgt = 2 \/ tgt = 3 \/ tgt = 4 \/ tgt = 5 \/ tgt = 6 \/ tgt = 7 \/ tgt = 8.
+  tgt = 0 \/ tgt = 1 \/ tgt = 2 \/ tgt = 3 \/ tgt = 4 \/ tgt = 5 \/ tgt = 6 \/ tgt = 7 \/ tgt = 8 \/ tgt = 9.
 Proof.
   unfold op_ok. destruct tgt as [|p]; [auto|].
-  do 4 (try destruct p as [p|p|]); intros H; try discriminate; auto 12.
+  do 4 (try destruct p as [p|p|]); intros H; try discriminate; auto 13.
 Qed.
 
 Ltac closed_eqb :=
@@ -417,7 +417,7 @@ Proof.
   clear Es Eo W W4. pose proof Proofs.C01.W64_gt_ISZ as HIW.
   destruct c as [m tgt par op ty a b cc x]. cbn [q_mode q_tgt q_par q_op q_ty q_a q_b q_c q_x] in *.
   unfold wf_tgt in W5. cbn [q_tgt q_par] in W5.
-  destruct Ht as [->|[->|[->|[->|[->|[->|[->|[->| ->]]]]]]]]; unfold op_ok in H.
+  destruct Ht as [->|[->|[->|[->|[->|[->|[->|[->|[->| ->]]]]]]]]]; unfold op_ok in H.
   - (* real slice *)
     destruct par as [|pre [|n [|z par]]]; try discriminate. b2p W5. b2p H. destruct W5 as [Hpre Hn].
     set (c := {| q_mode := m; q_tgt := 0; q_par := [pre; n]; q_op := op; q_ty := ty; q_a := a; q_b := b; q_c := cc; q_x := x |}).
@@ -466,4 +466,21 @@ Proof.
     destruct par as [|pre [|oc [|z par]]]; try discriminate. b2p W5. b2p H. destruct W5 as [_ Hn].
     set (c := {| q_mode := m; q_tgt := 8; q_par := [pre; oc]; q_op := op; q_ty := ty; q_a := a; q_b := b; q_c := cc; q_x := x |}).
     apply (real_slice_case c pre (osize oc)); [reflexivity|exact Hn|cbn [q_op c]; lia].
+  - (* a ByteValued type: from_slice / from_mut_slice / zeroed / as_slice / as_mut_slice *)
+    destruct par as [|oc [|z par]]; try discriminate. apply ok_le1. unfold bv_cls.
+    destruct ((op =? 80) || (op =? 81)); [apply cls_opt_le|lia].
+Qed.
+
+(* ByteValued::from_slice / from_mut_slice answer None - never a panic - for EVERY buffer whose length is not
+   size_of::<T>() (shorter, longer, empty), and Some only for a buffer of exactly that size, which it returns *)
+Lemma from_slice_total_lemma : forall T addr len,
+  (len <> e_size T -> bv_from_slice T addr len = None /\ bv_from_mut_slice T addr len = None) /\
+  (forall r, bv_from_slice T addr len = Some r -> len = e_size T /\ tr_addr r = addr /\ tr_size r = len).
+Proof.
+  intros T addr len. unfold bv_from_mut_slice, bv_from_slice. split.
+  - intros Hne. destruct (N.eqb_spec len (e_size T)); [contradiction|]. cbn [negb]. split; reflexivity.
+  - intros r. destruct (N.eqb_spec len (e_size T)) as [->|]; cbn [negb]; [|discriminate].
+    destruct (align_to addr (e_size T) (e_size T) (e_align T)) as [[p mid] suf].
+    destruct p; [|discriminate]. destruct mid as [|[q|q|]]; try discriminate. destruct suf; [|discriminate].
+    intros H. inversion H. cbn [tr_addr tr_size]. repeat split.
 Qed.
